@@ -66,54 +66,60 @@ type State struct {
 }
 
 type VC struct {
-	P             *Program
-	fn            *ssa.Function
-	spec          *FuncSpec
-	name          string
-	decls         []string
-	declared      map[string]bool
-	items         []item
-	obls          []*Obligation
-	vals          map[ssa.Value]Term
-	tuples        map[ssa.Value][]Term
-	stateSort     map[string]string
-	freshN        int
-	epochN        int
-	stateN        int
-	entry         *State
-	notes         []string // unsupported constructs encountered (over-approximated)
-	discover      bool
-	written       map[*ssa.BasicBlock]map[string]map[string]bool
-	writtenFrozen map[*ssa.BasicBlock]map[string]map[string]bool
-	protectedNow  bool                          // a recovering deferred handler is registered: panics of the current instruction are its business
-	deferBlock    *ssa.BasicBlock               // block registering that handler
-	panicFrom     *State                        // state right after the registration (deferred calls recorded)
-	panicStable   []*ssa.Alloc                  // captured locals nothing writes after the registration
-	deferGuard    string                        // reachability of the registration
-	privateCells  []*ssa.Alloc                  // locals no callee without contract can reach
-	loopFrame     map[*loopInfo]map[string]bool // maps whose writes inside the loop must hit objects allocated by this call
-	curBlock      *ssa.BasicBlock
-	curGuard      string
-	hasAlloc      bool
-	lets          map[string]Term
-	panicsIff     string // translated panics_iff condition over the entry state ("" when absent)
-	hasPanicsIff  bool
-	usedExterns   map[string]bool
-	usedSpecs     map[string]bool
-	allocs        []string
-	funDecls      map[string]bool
-	preamble      []string // axioms instantiated for this VC (spec functions etc.)
-	recInfo       map[string]*recInfo
-	replayKeys    []string
-	reach         map[*ssa.BasicBlock]map[*ssa.BasicBlock]bool // reachability in the CFG without back edges
-	allocBlock    map[string]*ssa.BasicBlock                   // allocation constants (and values defined from them) -> block
-	loops         []*loopInfo
-	loopHead      map[*loopInfo]*State
-	symsUsed      map[string]bool      // prelude symbols the contracts of this function mention
-	symsFrozen    map[string]bool      // ... as found by the discovery pass
-	knownVars     map[string]string    // state variables (name -> sort) the discovery pass met
-	globalPkg     map[string]string    // state variable of a package-level variable -> package path
-	ssaByName     map[string]ssa.Value // SMT constant of a defined SSA value -> the value
+	P                *Program
+	fn               *ssa.Function
+	spec             *FuncSpec
+	name             string
+	decls            []string
+	declared         map[string]bool
+	items            []item
+	obls             []*Obligation
+	vals             map[ssa.Value]Term
+	tuples           map[ssa.Value][]Term
+	stateSort        map[string]string
+	freshN           int
+	callN            int
+	loopKeep         map[*loopInfo]string
+	lastExisted      string
+	lastExistedBlock *ssa.BasicBlock
+	epochN           int
+	stateN           int
+	entry            *State
+	notes            []string // unsupported constructs encountered (over-approximated)
+	discover         bool
+	written          map[*ssa.BasicBlock]map[string]map[string]bool
+	writtenFrozen    map[*ssa.BasicBlock]map[string]map[string]bool
+	protectedNow     bool                          // a recovering deferred handler is registered: panics of the current instruction are its business
+	deferBlock       *ssa.BasicBlock               // block registering that handler
+	panicFrom        *State                        // state right after the registration (deferred calls recorded)
+	panicStable      []*ssa.Alloc                  // captured locals nothing writes after the registration
+	deferGuard       string                        // reachability of the registration
+	privateCells     []*ssa.Alloc                  // locals no callee without contract can reach
+	loopFrame        map[*loopInfo]map[string]bool // maps whose writes inside the loop must hit objects allocated by this call
+	curBlock         *ssa.BasicBlock
+	curGuard         string
+	hasAlloc         bool
+	lets             map[string]Term
+	panicsIff        string // translated panics_iff condition over the entry state ("" when absent)
+	hasPanicsIff     bool
+	usedExterns      map[string]bool
+	usedSpecs        map[string]bool
+	allocs           []string
+	funDecls         map[string]bool
+	preamble         []string // axioms instantiated for this VC (spec functions etc.)
+	recInfo          map[string]*recInfo
+	replayKeys       []string
+	reach            map[*ssa.BasicBlock]map[*ssa.BasicBlock]bool // reachability in the CFG without back edges
+	allocBlock       map[string]*ssa.BasicBlock                   // allocation constants (and values defined from them) -> block
+	loops            []*loopInfo
+	loopHead         map[*loopInfo]*State
+	symsUsed         map[string]bool      // prelude symbols the contracts of this function mention
+	symsFrozen       map[string]bool      // ... as found by the discovery pass
+	knownVars        map[string]string    // state variables (name -> sort) the discovery pass met
+	globalPkg        map[string]string    // state variable of a package-level variable -> package path
+	ssaByName        map[string]ssa.Value // SMT constant of a defined SSA value -> the value
+	staticV          map[string]ssa.Value // SMT constant name -> SSA value, for the whole function
+	knownInvariant   map[string]bool      // index terms established as loop-invariant
 }
 
 func (vc *VC) fresh(prefix, sort string) string {
@@ -381,7 +387,7 @@ func (vc *VC) markWrittenAt(name, idx string) {
 			if ab, ok := vc.allocBlock[idx]; ok && li.blocks[ab] {
 				continue
 			}
-			vc.oblige(fmt.Sprintf("loop%d.frame", li.ordinal), name, nil, vc.curGuard, not(sx("is_old", idx)),
+			vc.oblige(fmt.Sprintf("loop%d.frame", li.ordinal), name, nil, vc.curGuard, or(sx("=", idx, "0"), not(sx("is_old", idx))),
 				"the loop writes "+name+" only at objects allocated by this call (the caller's objects keep their values)", token.NoPos)
 		}
 	}
@@ -402,6 +408,9 @@ var identRe = regexp.MustCompile(`[A-Za-z_$!@][A-Za-z0-9_$!@.\-]*`)
 // invariantIn: does term t only mention parameters, captured variables, globals and SSA values
 // defined outside loop li (an SSA value never changes once defined)?
 func (vc *VC) invariantIn(li *loopInfo, t string) bool {
+	if vc.knownInvariant[t] {
+		return true
+	}
 	for _, id := range identRe.FindAllString(t, -1) {
 		if v, ok := vc.ssaByName[id]; ok && li != nil {
 			if in, isInstr := v.(ssa.Instruction); isInstr && in.Block() != nil && !li.blocks[in.Block()] {
